@@ -155,6 +155,8 @@ class Probe(Serializable):
             return Value("i", int(value))
         if kind == "D":
             return Path(str(value))
+        if kind == "L":
+            return threading.Lock()
         return int(value)
 
     def _init_shared_memory_attrs_before(self) -> None:
